@@ -44,8 +44,9 @@ Divides(d, n) == d # 0 /\ n % Abs(d) = 0
 SampleInf == {-7, -3, -2, -1, 0, 1, 2, 3, 7}
 Cand(dom, D) ==
   LET step == IF dom.int THEN D ELSE 1
-      lo == IF dom.lb <= -Inf THEN -7 * D ELSE dom.lb * D
-      hi == IF dom.ub >= Inf THEN 7 * D ELSE dom.ub * D
+      \* (dom.half: the ends are given in half units; D is even then)
+      lo == IF dom.lb <= -Inf THEN -7 * D ELSE IF dom.half THEN dom.lb * (D \div 2) ELSE dom.lb * D
+      hi == IF dom.ub >= Inf THEN 7 * D ELSE IF dom.half THEN dom.ub * (D \div 2) ELSE dom.ub * D
       all == {k \in lo..hi : k % step = 0}
   IN IF dom.lb <= -Inf \/ dom.ub >= Inf \/ hi - lo > 16 * D
        THEN {k \in all : k \in {lo, lo + step, hi - step, hi} \/ (SDiv(k, D) * D = k /\ SDiv(k, D) \in SampleInf)}
